@@ -942,3 +942,40 @@ def guard_strings(body, bb):
 
 
 Body.guard_strings = lambda self, bb: guard_strings(self, bb)
+
+
+def base_local(body, operand, depth=8):
+    """the user-declared local a reference operand ultimately borrows (through re-borrows/moves)"""
+    p = op_place(operand)
+    while p is not None and depth > 0:
+        depth -= 1
+        l = p[0]
+        if body.locals[l].get("user") or (1 <= l <= body.argc):
+            return l
+        dl = [e for e in body.defs().get(l, []) if e[0] == "stmt" and len(e[3]["d"]) == 1]
+        if len(dl) != 1:
+            return l
+        r = dl[0][3]["r"]
+        if r["k"] in ("ref", "rawptr"):
+            p = r["p"]
+        elif r["k"] in ("use", "cast"):
+            p = op_place(r["o"][0])
+        else:
+            return l
+    return p[0] if p is not None else None
+
+
+Body.base_local = lambda self, operand: base_local(self, operand)
+
+
+def edge_labels_reaching(body, u, bb):
+    """labels of the out-edges of switch block u from which block bb is reachable"""
+    out = set()
+    for (v, lab) in body.succ_labeled(u):
+        if bb == v or bb in body.reachable(v, without_nodes=(u,)):
+            for l in (body.edge_label(u, v) or []):
+                out.add(l)
+    return out
+
+
+Body.edge_labels_reaching = lambda self, u, bb: edge_labels_reaching(self, u, bb)
